@@ -325,6 +325,9 @@ def eval_block(block, acc):
                         for key, detail in out:
                             acc.violation(key + "|short_read", {"stream": data.hex(), "cfg": cfg, "devs": {str(i): sl}}, detail)
         return
+    elif kind == "swallow":
+        cfgs = COVER
+        it = (streams.seq_bytes(sq) for sq in streams.swallow_seqs())
     elif kind == "long":
         cfgs = COVER
         it = (streams.seq_bytes(sq) for sq in streams.long_seqs(streams.LONG_NEIGHBOURS + ["fb562", "fd300"]))
@@ -372,6 +375,7 @@ def run_tier(tier, t0):
         blocks.append(("tokens", "cover", first, k, alphabet))
     blocks = [b for b in blocks if b[0] != "tokens0"]
     blocks.append(("long",))
+    blocks.append(("swallow",))
     blocks += [("short", f) for f in streams.FRAME_TOKENS]
     blocks += [("sessions", f) for f in ("Uack", "N1", "R1")]
     blocks += [("sock", f) for f in streams.FRAME_TOKENS]
